@@ -395,6 +395,7 @@ func (w *World) sessData(s *MSess, body []byte, final bool, declared string, o c
 		w.inFlightEvict[repo] = true
 	}
 	mustAlive0, _ := w.sessLive(s)
+	sentAt := w.now()
 	r := w.do(reqSpec{method: method, path: path, query: q.Encode(), hdr: hdr, body: body, pieces: o.pieces, sleepMs: o.sleepMs,
 		abort: o.abort, abortAt: o.abortAt, repos: []string{repo}, noBody: body == nil})
 	if r.Panicked {
@@ -489,6 +490,9 @@ func (w *World) sessData(s *MSess, body []byte, final bool, declared string, o c
 		}
 		s.data = append(s.data, body...)
 		s.lastUse = now
+		if len(body) > 0 {
+			s.lastData = sentAt
+		}
 		w.parseLocation(s, r)
 		want := fmt.Sprintf("0-%d", len(s.data)-1)
 		if got := r.H.Get("Range"); got != want {
@@ -507,6 +511,9 @@ func (w *World) sessData(s *MSess, body []byte, final bool, declared string, o c
 		return r
 	}
 	full := append(append([]byte(nil), s.data...), body...)
+	if len(body) > 0 {
+		s.lastData = sentAt
+	}
 	actual := digestOf(algoOf(declared), full)
 	w.m.usedDigests[declared] = true
 	existing, has := mr.blobs[declared]
@@ -523,7 +530,7 @@ func (w *World) sessData(s *MSess, body []byte, final bool, declared string, o c
 		// a refusal is a failed verification and ends the session
 		if r.Code == 201 {
 			s.open, s.endedHow = false, "completion"
-			w.storeBlob(mr, declared, full, s.created, now)
+			w.storeBlob(mr, declared, full, s.bornOf(), now)
 		} else {
 			s.open, s.endedHow = false, "failed verification (announced digest differs)"
 		}
@@ -538,7 +545,7 @@ func (w *World) sessData(s *MSess, body []byte, final bool, declared string, o c
 		return r
 	}
 	s.open, s.endedHow = false, "completion"
-	w.storeBlob(mr, declared, full, s.created, now)
+	w.storeBlob(mr, declared, full, s.bornOf(), now)
 	w.x.out.probe("upload-201")
 	if algoOf(declared) != "sha256" {
 		w.x.out.probe("upload-201-" + algoOf(declared))
@@ -854,4 +861,13 @@ func (w *World) opSess(op Op) {
 	case "delete":
 		w.sessCancel(s, over)
 	}
+}
+
+// bornOf: the earliest moment the blob a session becomes may carry as its time: the bytes were written at or after the
+// moment the last request with accepted bytes was sent (both stores stamp the last write or the completion).
+func (s *MSess) bornOf() time.Time {
+	if s.lastData.After(s.created) {
+		return s.lastData
+	}
+	return s.created
 }
